@@ -6,6 +6,7 @@ CONSTANTS
   Vcpus = {1}
   Roms = {1}
   Bases = {"high"}
+  Metas = {0}
 SPECIFICATION Spec
 INVARIANTS Emit
 CHECK_DEADLOCK FALSE
